@@ -27,11 +27,11 @@ K(a, b, c) == a * 2000 + b * 40 + c
 (* Pools                                                                   *)
 (***************************************************************************)
 \* (names that merely START with a keyword -- notes, indexes_count, tables -- are ordinary bare identifiers)
-TableNames == <<"users", "orders", "order items", "table", "~u00dc~n~u00ef~", "Products", "t_1", "note", "ref", "notes", "tables", "Users", "123", "a  b">>
+TableNames == <<"users", "orders", "order items", "table", "~u00dc~n~u00ef~", "Products", "t_1", "note", "ref", "notes", "tables", "Users", "123", "a  b", "t[1]">>
 SchemaPool == <<"", "", "", "s1", "my schema", "public", "s1">>
 AliasPool  == <<"u", "O", "oi", "my alias", "a5", "P", "t1a", "n8", "r9">>
-ColNames   == <<"id", "name", "user id", "note", "type", "~u540d~~u524d~", "Ref", "c_2", "default", "pk", "notes", "indexes_count", "ref_id", "ID", "1st", "0">>
-EnumNames  == <<"status", "order status", "enum", "~u00e9~tat">>
+ColNames   == <<"id", "name", "user id", "note", "type", "~u540d~~u524d~", "Ref", "c_2", "default", "pk", "notes", "indexes_count", "ref_id", "ID", "1st", "0", "tags[]", "a^b", "`code`">>
+EnumNames  == <<"status", "order status", "enum", "~u00e9~tat", "e^2">>
 EnumItems  == <<"new", "in progress", "done", "~u2713~ ok", "null", "x-1", "notes", "0", "New">>
 PlainTypes == << [schema |-> "", name |-> "int", suffix |-> ""],
                  [schema |-> "", name |-> "varchar", suffix |-> "(255)"],
@@ -55,16 +55,16 @@ Defaults   == << [k |-> "none", v |-> ""], [k |-> "none", v |-> ""], [k |-> "int
                  [k |-> "str", v |-> "true"], [k |-> "str", v |-> "False"], [k |-> "int", v |-> "12345678901234567890"],
                  [k |-> "expr", v |-> "(a) * (b)"], [k |-> "expr", v |-> "(now())"] >>
 Colors     == <<"", "", "#abc", "#A1B2C3", "#fff000">>
-PropKeys   == <<"owner", "pii", "k_3", "my key", "notes_key">>
+PropKeys   == <<"owner", "pii", "k_3", "my key", "notes_key", "k[1]">>
 RefKinds   == <<">", "<", "-", "<>">>
 Actions    == <<"", "", "", "cascade", "no action", "restrict", "set null", "set default">>
 IdxTypes   == <<"", "", "btree", "hash", "gin", "gist", "brin", "spgist">>
-IdxNames   == <<"", "", "idx_1", "my index", "it's">>
+IdxNames   == <<"", "", "idx_1", "my index", "it's", "ix[0]">>
 Exprs      == <<"lower(name)", "id * 2", "now()", "(a) || (b)", "(lower(name))">>
 GroupNames == <<"g1", "my group", "TableGroup">>
-StickyNames == <<"n1", "reminder_2", "note">>
+StickyNames == <<"n1", "reminder_2", "v^2">>
 ProjNames  == <<"proj", "my project", "Project">>
-ProjKeys   == <<"database_type", "notes", "owner">>
+ProjKeys   == <<"database_type", "notes", "db[0]">>
 
 \* equal twins: in one document out of seven every note that is present carries the SAME text, and notes are frequent
 \* (objects that are equal by value but must stay distinct by identity: shared caches, interned values)
@@ -169,7 +169,7 @@ RandRef(seed, r) ==
       two == Coin(seed, K(25 + r, 0, 3), 25) /\ NCols(seed, t1) >= 2 /\ NCols(seed, t2) >= 2
       c1 == Num(seed, K(25 + r, 0, 4), 1, NCols(seed, t1))
       c2 == Num(seed, K(25 + r, 0, 5), 1, NCols(seed, t2))
-  IN [d |-> "ref", name |-> Maybe(seed, K(25 + r, 0, 6), 35, <<"fk_1", "my fk", "Ref">>),
+  IN [d |-> "ref", name |-> Maybe(seed, K(25 + r, 0, 6), 35, <<"fk_1", "my fk", "Ref", "fk^2">>),
       left |-> ColAddr(seed, K(25 + r, 0, 8), t1, IF two THEN <<1, 2>> ELSE <<c1>>),
       type |-> Pick(seed, K(25 + r, 0, 9), RefKinds),
       right |-> ColAddr(seed, K(25 + r, 0, 10), t2, IF two THEN <<2, 1>> ELSE <<c2>>),
@@ -230,7 +230,9 @@ RandDoc(seed) == RandDocP(seed, FALSE)
 CommentTexts == <<"plain comment", "it's \"quoted\"", "{ braces } [x] (y)", "Table x {", "'); DROP TABLE t; --",
                   "a * b / c", "note: 'x'", "~u00fc~ber ~u4e2d~", "path C:\\data\\", "two\nlines", "Ref: a.b > c.d\nEnum e {\n}", "// nested", "#1">>
 OneLineComments == SelectSeq(CommentTexts, LAMBDA t : t \notin {"two\nlines", "Ref: a.b > c.d\nEnum e {\n}"})
-MaybeC(seed, key, pool) == IF Coin(seed, key, 45) THEN Pick(seed, key + 1, pool) ELSE ""
+\* (equal twins again: in a Twins document every comment that is present is the same one-line text)
+MaybeC(seed, key, pool) == IF Twins(seed) THEN (IF Coin(seed, key, 70) THEN Pick(seed, 18, OneLineComments) ELSE "")
+                           ELSE IF Coin(seed, key, 45) THEN Pick(seed, key + 1, pool) ELSE ""
 
 Commented(seed, doc) ==
   [i \in DOMAIN doc |->
